@@ -95,6 +95,10 @@ class Evolver:
             if len([i for i in t["items"] if not bm.is_null(i)]) >= 2:
                 for i in t["items"]:
                     self.union_alternatives.update(alt_structs(i))
+        # ... and their ancestors: a property added to StaticRegistrationOptions changes the property sets of the
+        # <X>RegistrationOptions alternatives just the same
+        for s in list(self.union_alternatives):
+            self.union_alternatives.update(bm.ancestors(s))
 
     # -- helpers --------------------------------------------------------------------
     def pick(self, seq: List[Any]) -> Any:
